@@ -69,6 +69,7 @@ def run(idx: ProgramIndex, rep: Report, tier: str):
     lazy_batch_ops(idx, rep)
     block_shapes(idx, rep)
     own_batch_shape(idx, rep)
+    sub_kernels_replaced_in_place(idx, rep)
 
 
 # ---- C06-1 ---------------------------------------------------------------------------------------------------------
@@ -626,6 +627,29 @@ def lazy_batch_ops(idx: ProgramIndex, rep: Report):
             rep.add("C06-8", "%s:LazyEvaluatedKernelTensor._getitem[kernel indexed before expansion]" % lek.module.name, "%s:%d" % (gi.module.relpath, t.lineno), not bad,
                     "the kernel is indexed after it was given the full batch shape (or its batch rank was checked)" if not bad else
                     "`self.kernel.__getitem__(batch_indices)` is tried first and the expansion to the broadcast batch shape happens only on IndexError: a kernel with fewer batch dimensions than the inputs accepts the leading index on its own first dimension, so an index meant for an input batch dimension picks a hyper-parameter", {})
+    # (c) a kernel's batch dimensions are the TRAILING dimensions of the broadcast batch shape (everything broadcasts from the right): the
+    #     batch indices handed to the kernel are all of them, or a suffix - a prefix `[:k]` pairs the index of an input batch dimension with
+    #     a hyper-parameter dimension
+    if gi is not None:
+        assigns = {}
+        for a in ast.walk(gi.node):
+            if isinstance(a, ast.Assign) and isinstance(a.targets[0], ast.Name):
+                assigns.setdefault(a.targets[0].id, []).append(a.value)
+        for c in ast.walk(gi.node):
+            arg = None
+            if isinstance(c, ast.Call) and isinstance(c.func, ast.Attribute) and c.func.attr == "__getitem__" and "kernel" in (chain(c.func.value) or "") and c.args:
+                arg = c.args[0]
+            elif isinstance(c, ast.Subscript) and (chain(c.value) or "").endswith("kernel") and isinstance(c.ctx, ast.Load):
+                arg = c.slice
+            if arg is None:
+                continue
+            n += 1
+            exprs = [arg] + (assigns.get(arg.id, []) if isinstance(arg, ast.Name) else [])
+            prefix = [e for e in exprs for x in ast.walk(e) if isinstance(x, ast.Subscript) and isinstance(x.slice, ast.Slice) and x.slice.lower is None and x.slice.upper is not None
+                      and not (isinstance(x.slice.upper, ast.UnaryOp)) and "batch_ind" in src(x.value)]
+            rep.add("C06-8", "%s:LazyEvaluatedKernelTensor._getitem[batch indices handed to the kernel: %s]" % (lek.module.name, "prefix" if prefix else "all / suffix"), "%s:%d" % (gi.module.relpath, c.lineno), not prefix,
+                    "the kernel receives all batch indices (or a suffix of them)" if not prefix else
+                    "`%s`: the kernel is indexed with the LEADING batch indices; its batch dimensions are the trailing ones of the broadcast batch shape, so with data batch (2, 3) over kernel batch (3,) kernel(x)[i, j] is computed with the hyper-parameters of element i instead of j (right shape, wrong values)" % " ".join(src(prefix[0]).split())[:70], {})
     rep.floor("C06-8", "batch re-arranging primitives", n, 5)
 
 
@@ -755,3 +779,33 @@ def _enclosing(fn: ast.AST, target: ast.AST) -> List[ast.AST]:
         return False
     rec(fn, [])
     return out
+
+
+# ---- C06-12 --------------------------------------------------------------------------------------------------------
+def sub_kernels_replaced_in_place(idx: ProgramIndex, rep: Report):
+    """Kernel.__getitem__ / expand_batch replace every sub-kernel of the copy by its indexed / expanded version.  The names come from
+    named_sub_kernels(), i.e. from named_modules(): for composite kernels they are DOTTED paths ('kernels.0', 'base_kernel.kernels.1').
+    `setattr(copy, 'kernels.0', k)` does not replace copy.kernels[0] - it registers an orphan module under that literal name; the members the
+    copy evaluates keep their old batch shape while the copy reports the new one."""
+    rep.rule("C06-12", "sub-kernels of a copied kernel are replaced through their parent module: no setattr / __setattr__ with the (dotted) names of named_sub_kernels() / named_modules()")
+    K = kernel_cls(idx)
+    n = 0
+    for mname in ("__getitem__", "expand_batch"):
+        fi = idx.method(K, mname, own=True)
+        for loop in [x for x in ast.walk(fi.node) if isinstance(x, ast.For)]:
+            it = src(loop.iter)
+            if not ("named_sub_kernels" in it or "named_modules" in it):
+                continue
+            names = {t.id for t in ast.walk(loop.target) if isinstance(t, ast.Name)}
+            for c in ast.walk(loop):
+                dotted = None
+                if isinstance(c, ast.Call) and isinstance(c.func, ast.Attribute) and c.func.attr == "__setattr__" and c.args and isinstance(c.args[0], ast.Name) and c.args[0].id in names:
+                    dotted = c
+                if isinstance(c, ast.Call) and isinstance(c.func, ast.Name) and c.func.id == "setattr" and len(c.args) >= 2 and isinstance(c.args[1], ast.Name) and c.args[1].id in names:
+                    dotted = c
+                if dotted is None:
+                    continue
+                n += 1
+                rep.add("C06-12", "%s:Kernel.%s[sub-kernel stored under a module path]" % (K.module.name, mname), "%s:%d" % (fi.module.relpath, dotted.lineno), False,
+                        "`%s`: the names of %s are dotted module paths for composite kernels; setting an attribute of that literal name registers an orphan module and leaves the member untouched: (RBFKernel() + MaternKernel()).expand_batch([2]) reports batch shape (2,) while its members keep (), evaluating it raises; kernel(x)[i, j] of a sum / product with batch shapes raises IndexError" % (" ".join(src(dotted).split())[:70], it.split("(")[0].split(".")[-1] + "()"), {})
+    rep.add("C06-12", "%s:Kernel[sub-kernel replacement sites]" % K.module.name, K.where, True, "%d site(s) use the names of named_sub_kernels() as attribute names" % n, {"sites": n}, trivial=True)
